@@ -74,6 +74,39 @@ def coq_val(val):
     return 'VStr'
 
 
+def plain_op(op, vars_):
+    """The operation with the variable replaced by the value the variable was given."""
+    if op[0] == 'rv':
+        return ['ra', vars_[op[1]]]
+    if op[0] == 'zv':
+        return ['z', vars_[op[1]]]
+    return op
+
+
+def value_bytes(val):
+    if val[0] == 'i':
+        return list((val[1] % 65536).to_bytes(2, 'little'))
+    return list(val[1])
+
+
+def var_name(i, val, sess):
+    """BASIC name of variable i: even i a scalar, odd i an array element."""
+    sig = {'i': '%', 's': '!', 'd': '#'}[val[0]]
+    if i % 2:
+        return ('A%s%s(%d)' % (val[0].upper(), sig, i)) if sess else (('A%s%s' % (val[0].upper(), sig)).encode(), [i])
+    # a single-precision scalar is also reachable without sigil (default type): use that spelling in BASIC text
+    nm = 'V%s%d' % (val[0].upper(), i)
+    return (nm + ('' if (sig == '!' and i % 4 == 0) else sig)) if sess else ((nm + sig).encode(), [])
+
+
+def coq_vop(op):
+    if op[0] == 'rv':
+        return 'VRnd %d' % op[1]
+    if op[0] == 'zv':
+        return 'VRandomize %d' % op[1]
+    return 'VOp (%s)' % coq_op(op)
+
+
 def coq_op(op):
     if op[0] == 'r':
         return 'ORnd None'
@@ -152,6 +185,27 @@ class C39(core.Check):
             return V.new_double().from_bytes(bytes(val[1]))
         return V.new_string().from_str(b'seed')
 
+    def _set_vars(self, impl, vars_):
+        for i, val in enumerate(vars_):
+            name, idx = var_name(i, val, False)
+            impl.memory.set_variable(name, idx, self._value(impl, val))
+
+    def _apply_var(self, impl, r, op, vars_):
+        """RND(X) / RANDOMIZE X with X a real variable or array element in the live memory: the callee is
+        handed the view the expression parser would hand it; afterwards the variable is read back."""
+        name, idx = var_name(op[1], vars_[op[1]], False)
+        view = impl.memory.view_or_create_variable(name, idx)
+        try:
+            if op[0] == 'rv':
+                res = [0] + list(bytearray(r.rnd_([view]).to_bytes()))
+            else:
+                impl.randomize_([view])
+                res = [0]
+        except Exception as e:   # noqa
+            res = common.canon_exc(e)
+        obs = list(bytearray(impl.memory.view_or_create_variable(name, idx).to_bytes()))
+        return res + [r._seed, len(obs)] + obs
+
     def _apply(self, impl, r, op):
         """Run one operation on the real objects; canonical result + seed."""
         try:
@@ -216,6 +270,15 @@ class C39(core.Check):
                                   ['z', i(32767)]]},
             {'k': 'sess', 'ops': [['r'], ['ra', i(0)], ['z', i(5)], ['r'], ['c', 'RUN'], ['r'],
                                   ['c', 'CLEAR'], ['ra', ['s', [0, 0, 192, 129]]], ['c', 'NEW'], ['r']]},
+            # seed C39c: X=-3: A=RND(X): B=RND: C=RND(X): D=RND and the same with an array element; X read back
+            {'k': 'hist', 'vars': [['s', [0, 0, 192, 130]], ['s', [0, 0, 192, 130]], ['i', -3],
+                                   ['d', [0, 0, 0, 0, 0, 0, 192, 130]]],
+             'ops': [['rv', 0], ['r'], ['rv', 0], ['r'], ['rv', 1], ['rv', 1], ['rv', 2], ['rv', 2], ['rv', 3],
+                     ['rv', 3], ['zv', 0], ['zv', 1], ['ra', ['s', [0, 0, 192, 130]]], ['r']]},
+            {'k': 'sess', 'vars': [['s', [0, 0, 192, 130]], ['s', [0, 0, 192, 130]], ['i', -3],
+                                   ['d', [0, 0, 0, 0, 0, 0, 192, 130]]],
+             'ops': [['rv', 0], ['r'], ['rv', 0], ['r'], ['rv', 1], ['rv', 1], ['c', 'CLEAR'], ['rv', 2], ['rv', 2],
+                     ['rv', 3], ['rv', 3], ['zv', 0], ['zv', 1], ['ra', ['s', [0, 0, 192, 130]]], ['r']]},
             {'k': 'scale', 'seeds': [0, 1, 2, 3, 255, 256, 1 << 22, (1 << 23) - 1, 1 << 23, (1 << 23) + 1,
                                      M24 - 2, M24 - 1, 5228370] + [1 << j for j in range(24)]},
             {'k': 'sweep', 'lo': 0, 'n': 4096},
@@ -280,6 +343,45 @@ class C39(core.Check):
             return self._rand_single(rng, neg)
         return self._rand_double(rng, neg)
 
+    def _rand_vars(self, rng):
+        """Variables / array elements used as arguments (even index: scalar, odd: array element): mostly
+        negative (the reseeding class), every numeric type."""
+        vars_ = []
+        for _ in range(rng.choice([1, 2, 2, 3, 4])):
+            neg = rng.choice([True, True, True, False, None])
+            r = rng.random()
+            if r < 0.5:
+                v = self._rand_single(rng, neg)
+            elif r < 0.75:
+                v = self._rand_val(rng, neg, False)
+            else:
+                v = rng.choice([['s', [0, 0, 192, 130]], ['i', -3], ['d', [0, 0, 0, 0, 0, 0, 192, 130]],
+                                ['s', [0, 0, 128, 129]], ['s', [255, 255, 255, 255]], ['s', [0, 0, 0, 0]]])
+            vars_.append(v)
+        return vars_
+
+    def _rand_case(self, rng, sess=False):
+        case = {'k': 'sess' if sess else 'hist'}
+        vars_ = self._rand_vars(rng) if rng.random() < 0.5 else None
+        ops = self._rand_ops(rng, sess)
+        if vars_:
+            # hand about half of the arguments over in variables; the same variable again and again
+            ops2 = []
+            for op in ops:
+                if op[0] in ('ra', 'z') and rng.random() < 0.6:
+                    i = rng.randrange(len(vars_))
+                    ops2.append(['rv' if (op[0] == 'ra' or rng.random() < 0.5) else 'zv', i])
+                    if rng.random() < 0.35:
+                        ops2.append(['rv', i])
+                else:
+                    ops2.append(op)
+            if not any(op[0] == 'rv' for op in ops2):
+                ops2 += [['rv', 0], ['r'], ['rv', 0]]
+            ops = ops2
+            case['vars'] = vars_
+        case['ops'] = ops
+        return case
+
     def _rand_ops(self, rng, sess=False):
         n = rng.choice([1, 2, 3, 5, 8, 12]) if rng.random() < 0.7 else rng.randrange(1, 25)
         pool = []     # arguments reused inside the history (same argument twice is what the property is about)
@@ -311,7 +413,9 @@ class C39(core.Check):
         rng = self.rng
         thorough = self.tier == 'thorough'
         hist = {'hist': 0, 'sess': 0, 'scale': 0, 'sweep': 0, 'walk': 0, 'rzint': 0,
-                'op_r': 0, 'op_ra': 0, 'op_z': 0, 'op_c': 0, 'arg_i': 0, 'arg_s': 0, 'arg_d': 0, 'arg_$': 0}
+                'op_r': 0, 'op_ra': 0, 'op_z': 0, 'op_c': 0, 'op_rv': 0, 'op_zv': 0,
+                'arg_i': 0, 'arg_s': 0, 'arg_d': 0, 'arg_$': 0, 'var_i': 0, 'var_s': 0, 'var_d': 0,
+                'cases_with_variables': 0, 'variable_used_again': 0}
         light, heavy = [], []
         # --- heavy (model-side) cases
         if thorough:
@@ -359,9 +463,9 @@ class C39(core.Check):
                     seeds.append(rng.randrange(M24))
             light.append({'k': 'scale', 'seeds': seeds})
         for _ in range(n_hist):
-            light.append({'k': 'hist', 'ops': self._rand_ops(rng)})
+            light.append(self._rand_case(rng))
         for _ in range(n_sess):
-            light.append({'k': 'sess', 'ops': self._rand_ops(rng, sess=True)})
+            light.append(self._rand_case(rng, sess=True))
         rng.shuffle(light)
         # spread the heavy cases evenly so that they land in different coqc shards
         out = []
@@ -379,6 +483,12 @@ class C39(core.Check):
                 hist['op_' + op[0]] += 1
                 if op[0] in ('ra', 'z'):
                     hist['arg_' + op[1][0]] += 1
+                if op[0] in ('rv', 'zv'):
+                    hist['var_' + c['vars'][op[1]][0]] += 1
+            if 'vars' in c:
+                hist['cases_with_variables'] += 1
+                used = [op[1] for op in c['ops'] if op[0] in ('rv', 'zv')]
+                hist['variable_used_again'] += len(used) - len(set(used))
         self.histogram = hist
         return out
 
@@ -388,9 +498,14 @@ class C39(core.Check):
         with core.time_limit(300):
             if k == 'hist':
                 impl, r = self._fresh()
+                vars_ = case.get('vars', [])
+                self._set_vars(impl, vars_)
                 out = []
                 for op in case['ops']:
-                    out += self._apply(impl, r, op)
+                    if op[0] in ('rv', 'zv'):
+                        out += self._apply_var(impl, r, op, vars_)
+                    else:
+                        out += self._apply(impl, r, op)
                 return out
             if k == 'sess':
                 return self._impl_sess(case)
@@ -472,7 +587,38 @@ class C39(core.Check):
                     return 'QS!'
                 s.execute('QD#=CVD(%s)' % bytes_expr(val))
                 return 'QD#'
+            vars_ = case.get('vars', [])
+
+            def lit(val):
+                return ('%d' % val[1]) if val[0] == 'i' else \
+                    ('CVS(%s)' if val[0] == 's' else 'CVD(%s)') % bytes_expr(val)
+
+            def assign_vars():
+                for i, val in enumerate(vars_):
+                    s.execute('%s=%s' % (var_name(i, val, True), lit(val)))
+
+            def observe(i):
+                nm = var_name(i, vars_[i], True)
+                fn = {'i': 'MKI$', 's': 'MKS$', 'd': 'MKD$'}[vars_[i][0]]
+                v = s.evaluate('%s(%s)' % (fn, nm))
+                if not isinstance(v, bytes):
+                    raise RuntimeError('evaluate(%s(%s)) -> %r' % (fn, nm, v))
+                return [len(v)] + list(v)
+            assign_vars()
             for op in case['ops']:
+                if op[0] in ('rv', 'zv'):
+                    nm = var_name(op[1], vars_[op[1]], True)
+                    if op[0] == 'rv':
+                        v = s.evaluate('MKS$(RND(%s))' % nm)
+                        if not isinstance(v, bytes) or len(v) != 4:
+                            raise RuntimeError('evaluate(MKS$(RND(%s))) -> %r' % (nm, v))
+                        out += [0] + list(v)
+                    else:
+                        s.execute('RANDOMIZE %s' % nm)
+                        out += [0]
+                    out.append(rnd()._seed)
+                    out += observe(op[1])
+                    continue
                 if op[0] in ('r', 'ra'):
                     text = 'MKS$(RND)' if op[0] == 'r' else 'MKS$(RND(%s))' % arg_text(op[1])
                     v = s.evaluate(text)
@@ -487,6 +633,10 @@ class C39(core.Check):
                         s.execute('1 REM\r')
                     s.execute(op[1])
                     out += [0]
+                    seed_now = rnd()._seed
+                    assign_vars()           # CLEAR / RUN / NEW wipe the variables: set the test up again
+                    out.append(seed_now)
+                    continue
                 out.append(rnd()._seed)
         return out
 
@@ -494,6 +644,9 @@ class C39(core.Check):
     def model_term(self, case):
         k = case['k']
         if k in ('hist', 'sess'):
+            if 'vars' in case:
+                return '(vtrace seed0 [%s] [%s])' % ('; '.join(coq_val(v) for v in case['vars']),
+                                                    '; '.join(coq_vop(op) for op in case['ops']))
             return '(trace seed0 [%s])' % '; '.join(coq_op(op) for op in case['ops'])
         if k == 'scale':
             return '(flat_map rnd_bytes %s)' % core.zl(case['seeds'])
@@ -515,34 +668,48 @@ class C39(core.Check):
 
     # ------------------------------------------------------------------ property oracle
     @staticmethod
-    def _op_offsets(case, out):
-        """start offsets of the per-operation records in a hist/sess output."""
-        offs = []
+    def _parse(case, out):
+        """per operation: (offset, op, error or None, value bytes or None, seed after, observed argument bytes
+        or None) from a hist/sess output."""
+        recs = []
         i = 0
         for op in case['ops']:
-            offs.append(i)
+            start = i
             if out[i] == 0:
-                i += 1 + (4 if op[0] in ('r', 'ra') else 0) + 1
+                nb = 4 if op[0] in ('r', 'ra', 'rv') else 0
+                err, b, after = None, out[i + 1:i + 1 + nb], out[i + 1 + nb]
+                i += nb + 2
             else:
+                err, b, after = (out[i], out[i + 1]), None, out[i + 2]
                 i += 3
-        return offs
+            obs = None
+            if op[0] in ('rv', 'zv'):
+                obs = out[i + 1:i + 1 + out[i]]
+                i += 1 + out[i]
+            recs.append((start, op, err, b, after, obs))
+        return recs
+
+    @classmethod
+    def _op_offsets(cls, case, out):
+        return [r[0] for r in cls._parse(case, out)]
 
     def _records(self, case, out):
-        recs = []
-        offs = self._op_offsets(case, out)
-        for op, i in zip(case['ops'], offs):
-            if out[i] == 0:
-                nb = 4 if op[0] in ('r', 'ra') else 0
-                recs.append((op, None, out[i + 1:i + 1 + nb], out[i + 1 + nb]))
-            else:
-                recs.append((op, (out[i], out[i + 1]), None, out[i + 2]))
-        return recs
+        vars_ = case.get('vars', [])
+        return [(plain_op(op, vars_), err, b, after) for _, op, err, b, after, _ in self._parse(case, out)]
 
     def _analyse(self, case, out):
         """Direct reading of the property on an observed history.  Returns [(kind, message)],
         kind 'K1' for the recorded RANDOMIZE low-byte dependence, 'other' for anything else."""
         A, C, s0 = self._affine()
         viol = []
+        # an argument handed over in a variable is the same argument every time: the variable must still hold
+        # what it was given (the analysis below reads every use of the variable as that value)
+        vars_ = case.get('vars', [])
+        for n, (_, op, _, _, _, obs) in enumerate(self._parse(case, out)):
+            if obs is not None and obs != value_bytes(vars_[op[1]]):
+                viol.append(('other', 'op %d %s: the argument variable %s held %s before the call and %s after it'
+                             % (n, json.dumps(op), var_name(op[1], vars_[op[1]], True),
+                                value_bytes(vars_[op[1]]), obs)))
         seed = s0
         last = None                     # bytes of the last value returned by RND
         for n, (op, err, b, after) in enumerate(self._records(case, out)):
